@@ -283,8 +283,9 @@ class Hooks:
         ctx, t = self.ctx, op["t"]
         cs = self.cs(op)
         nets = [getattr(st, n) for st in real.models.values() for n in st.networks] + list(real.modules.values())
-        ctx.oracle("every network keeps its parameters registered in the documented order", all(order_ok(x) for x in nets), cs,
-                   detail={"orders": sorted({tuple(k for k, _ in x.named_parameters()) for x in nets})}, sig=f"{t}/parameter-order")
+        # AUXILIARY (audit2-4 C20-2): registration order and names of the parameters are C03 / C06's invariant (vector_to_grads), not a clause of C20
+        ctx.point("every network keeps its parameters registered in the documented order", "aux", all(order_ok(x) for x in nets), True, cs, exact=True,
+                  sig=f"{t}/parameter-order")
         if t == "construct" and err is None:
             st = real.models[op["slot"]]
             self.interesting.discard(op["slot"])
@@ -734,6 +735,17 @@ def run(ctx):
         one_case(ctx, case)
     for case in gen_cases(ctx, ctx.tier == "thorough"):
         one_case(ctx, case)
+
+
+def env_run(ctx, env_name):
+    """the same property for a caller who changed a process-global setting (harness/common.py ENVS: default dtype float64, no_grad,
+    another working directory): the wrong-module probe, every hand-written history (both constructor branches of all three state
+    types, reinitialisation, the fit guards, one fit per optimizer) and gradient cases, all objects constructed inside the environment"""
+    wrong_module_probe(ctx)
+    for case in fixed_cases():
+        one_case(ctx, case)
+    for _ in range(6):
+        one_case(ctx, gen_grad(ctx.rng))
 
 
 def search(ctx):
